@@ -462,7 +462,8 @@ pub fn to_duration(num: &Number) -> Result<Duration, String> {
     }
     let ms = &num.value * &Numeric::from(1000);
     let (ms, rem) = ms.div_rem(&Numeric::from(1));
-    let ns = &rem * &Numeric::from(1_000_000_000);
+    // rem is the fractional part in milliseconds
+    let ns = &rem * &Numeric::from(1_000_000);
     Ok(Duration::milliseconds(ms.to_int().unwrap()) + Duration::nanoseconds(ns.to_int().unwrap()))
 }
 
